@@ -246,3 +246,8 @@ def replay(ctx, case):
         check(ctx, doc.text, case['L'], case)
     else:
         check(ctx, PINNED[case['index']], case['L'], case)
+
+
+import os as _os  # noqa: E402
+if _os.environ.get('VERIF_NO_PINNED'):
+    PINNED = []
